@@ -412,6 +412,7 @@ PricesDef == ("p1" :> 10) @@ ("p2" :> 12)
 PricesDef3 == ("p1" :> 10) @@ ("p2" :> 12) @@ ("p3" :> 14)
 XsDef == {-3, -1, 2}
 XsDefBig == {-3, -2, 1, 3}
+XsDef2 == {-3, 2}
 ProvListsDef == {<<"p1">>, <<"p1", "p2">>}
 ProvListsDef3 == {<<"p1">>, <<"p2", "p1">>, <<"p1", "p2", "p3">>}
 
